@@ -6,4 +6,5 @@ CONSTANTS
   FailKinds = {"kl", "kp", "kpi"}
   NVH = 3
   MinReg = 0
+  Renames = FALSE
 INVARIANTS CleanOK OnlyRegisteredListed NeverTheFailedOne ForcedFirst DisconnectMeansNoneLeft
